@@ -153,23 +153,33 @@ def apply_op(mk, psi, info, op, k):
     if kind == "compress_site":
         psi.compress_site(op[1], info=info, cutoff=0.0)
         return psi, before
-    if kind == "svals":
+    if kind in ("svals", "schmidt"):
         i = op[1]
-        s = psi.singular_values(i, info=info)
         vec = before.reshape(d ** i, -1)
-        rho = ref.matmul(vec, ref.dag(vec))
-        tot2 = sum((x * x for x in s), 0)
-        tot4 = sum((x * x * x * x for x in s), 0)
-        mk.eq(f"op{k}: sum s^2 == <psi|psi> (bond {i})", tot2, ref.trace(rho))
-        mk.eq(f"op{k}: sum s^4 == Tr rho_A^2 (bond {i})", tot4, ref.trace(ref.matmul(rho, rho)))
-        return psi, before
-    if kind == "schmidt":
-        i = op[1]
-        S = psi.schmidt_values(i, info=info)
-        vec = before.reshape(d ** i, -1)
-        rho = ref.matmul(vec, ref.dag(vec))
-        mk.eq(f"op{k}: sum schmidt == <psi|psi>", sum((x for x in S), 0), ref.trace(rho))
-        mk.eq(f"op{k}: sum schmidt^2 == purity", sum((x * x for x in S), 0), ref.trace(ref.matmul(rho, rho)))
+        rho = ref.matmul(vec, ref.dag(vec))          # reduced state of the left block (dense definition)
+        if kind == "svals":
+            s = psi.singular_values(i, info=info)
+            s2 = [x * x for x in s]
+        else:
+            s2 = list(psi.schmidt_values(i, info=info))
+        mk.eq(f"op{k}: sum of Schmidt values == <psi|psi> (bond {i})", sum(s2, 0), ref.trace(rho))
+        if mk.sym:
+            # the values are (stub contract) the singular values of the matrix handed to the
+            # SVD; show that this matrix M is the centre matrix and that the dense reduced state
+            # is W (M M^dag) W^dag with W the (isometric) left block: same non-zero spectrum.
+            A = stubs.LAST["svd"]
+            t = psi[i]
+            lb = psi.bond(i - 1, i)
+            rest = tuple(ix for ix in t.inds if ix != lb)
+            M = t.transpose(lb, *rest).data.reshape(t.ind_size(lb), -1)
+            mk.eq(f"op{k}: SVD taken of the centre matrix of bond {i} (Gram)", ref.matmul(A, ref.dag(A)), ref.matmul(M, ref.dag(M)))
+            left = psi.select([psi.site_tag(j) for j in range(i)], which="any")
+            W = ref.tn_dense(left, tuple(psi.site_ind(j) for j in range(i)) + (lb,)).reshape(d ** i, -1)
+            mk.eq(f"op{k}: dense reduced state == W (M M^dag) W^dag", ref.matmul(ref.matmul(W, ref.matmul(M, ref.dag(M))), ref.dag(W)), rho)
+            mk.eq(f"op{k}: W isometric", ref.matmul(ref.dag(W), W), ref.eye(W.shape[1], like=W))
+        else:
+            ev = np.sort(np.linalg.eigvalsh(np.asarray(rho, dtype=complex)))[::-1][:len(s2)]
+            mk.eq(f"op{k}: Schmidt values == spectrum of the dense reduced state", np.sort(np.asarray(s2, dtype=float))[::-1], ev, tol=1e-6)
         return psi, before
     if kind == "expec":
         where = op[1]
@@ -227,12 +237,113 @@ def run_history(mk, L, ops, start=None):
     return psi, info
 
 
-def _h(*ops, L=4, tiers=("quick", "thorough"), start=None):
-    return {"L": L, "ops": tuple(ops), "start": start, "_tiers": tiers}
+def _h(*ops, L=4, tiers=("quick", "thorough"), start=None, mand=True):
+    return {"L": L, "ops": tuple(ops), "start": start, "_tiers": tiers, "_mandatory": mand}
 
 
 _Q = ("quick", "thorough")
 _T = ("thorough",)
+
+
+# ---------------------------------------------------------------------- consumers on a state
+# that satisfies the recorded canonical form *by hypothesis*: one inductive step from an
+# arbitrary state satisfying the invariant (covers histories of any length, given that every
+# operation re-establishes the invariant, which the `history` family checks)
+
+def canonical_mps(mk, L, c):
+    """MPS with free entries subject to: sites < c left-isometric, sites > c right-isometric.
+    Symbolic mode: the isometry relations are hypotheses on the leaf symbols.
+    Numeric mode: a random MPS brought to that form by plain numpy QR sweeps (no quimb)."""
+    shapes = [(D, d) if i in (0, L - 1) else (D, D, d) for i in range(L)]
+    if mk.sym:
+        arrays = [mk.array(f"A{i}", shapes[i], "real") for i in range(L)]
+        for i in range(L):
+            a = arrays[i]
+            if i == c:
+                continue
+            for v in a.reshape(-1):
+                P.TAB.constrained.add(P.sid(v))
+            if i < c:      # left isometry: sum over (left bond, phys) -> identity on right bond
+                m = a.T if a.ndim == 2 else np.transpose(a, (0, 2, 1)).reshape(-1, a.shape[1])
+                # 2D site 0 has axes (bond, phys): matrix (phys x bond)
+            else:          # right isometry: sum over (right bond, phys) -> identity on left bond
+                m = a.T if a.ndim == 2 else np.transpose(a, (1, 2, 0)).reshape(-1, a.shape[0])
+            g = m.T.dot(m)
+            for x in range(g.shape[0]):
+                for y in range(x, g.shape[1]):
+                    P.HYP.append((f"canon-hyp site{i}[{x},{y}]", g[x, y] - (1 if x == y else 0)))
+        return qtn.MatrixProductState(arrays)
+    arrays = [mk.array(f"A{i}", shapes[i], "real") for i in range(L)]
+    mats = []
+    # plain numpy sweep: left part
+    carry = None
+    for i in range(c):
+        a = arrays[i]
+        if a.ndim == 2:           # (bond_r, phys)
+            m = a.T               # (phys, bond_r)
+        else:                     # (bond_l, bond_r, phys)
+            if carry is not None:
+                a = np.tensordot(carry, a, (1, 0))
+            m = np.transpose(a, (0, 2, 1)).reshape(-1, a.shape[1])
+        if a.ndim == 2 and carry is not None:
+            raise AssertionError
+        q, r = np.linalg.qr(m)
+        if a.ndim == 2:
+            arrays[i] = q.T
+        else:
+            arrays[i] = np.transpose(q.reshape(a.shape[0], a.shape[2], -1), (0, 2, 1))
+        carry = r
+    if carry is not None:
+        a = arrays[c]
+        arrays[c] = np.tensordot(carry, a, (1, 0)) if a.ndim == 3 or c > 0 else a
+    carry = None
+    for i in range(L - 1, c, -1):
+        a = arrays[i]
+        if a.ndim == 2:           # last site: (bond_l, phys)
+            m = a.T               # (phys, bond_l)
+        else:
+            if carry is not None:
+                a = np.transpose(np.tensordot(a, carry, (1, 1)), (0, 2, 1))
+            m = np.transpose(a, (1, 2, 0)).reshape(-1, a.shape[0])
+        q, r = np.linalg.qr(m)
+        if a.ndim == 2:
+            arrays[i] = q.T
+        else:
+            arrays[i] = np.transpose(q.reshape(a.shape[1], a.shape[2], -1), (2, 0, 1))
+        carry = r
+    if carry is not None:
+        a = arrays[c]
+        if a.ndim == 2:          # first site (bond_r, phys), only when c == 0
+            arrays[c] = np.tensordot(carry, a, (1, 0))
+        else:
+            arrays[c] = np.transpose(np.tensordot(a, carry, (1, 1)), (0, 2, 1))
+    return qtn.MatrixProductState(arrays)
+
+
+_CONS = []
+for L_ in (3, 4):
+    for c_ in range(L_):
+        for op_ in [("expec", (0,)), ("expec", (L_ - 1,)), ("expec", (1,)), ("expec", (0, 1)), ("expec", (1, 2)),
+                    ("rdm", (1,)), ("rdm", (0, 1)), ("mag", 0), ("mag", L_ - 1), ("svals", 1), ("svals", L_ - 1),
+                    ("schmidt", 1), ("measure", 0, 1, False), ("measure", L_ - 1, 0, False), ("measure", 1, 1, False),
+                    ("measure", 1, 0, True), ("measure", L_ - 1, 0, True)]:
+            quick = L_ == 3 and (op_[0] in ("expec", "mag", "svals", "schmidt", "measure") and (op_[1] == (1,) or op_[1] in (0, 1, 2) or op_[1] == (0, 1)))
+            _CONS.append({"L": L_, "c": c_, "op": op_, "_tiers": _Q if quick else _T})
+
+
+@obligation(PROP, params=_CONS, rounds=2, timeout_s=300, max_rows=60000, wall_s=250, solver_timeout_ms=60000)
+def consumer(mk, L, c, op):
+    """a consumer of the canonical form, called with a true record (c, c) on an arbitrary state
+    in that form: value == dense definition, outgoing record sound"""
+    psi = canonical_mps(mk, L, c)
+    info = {"cur_orthog": (c, c)}
+    check_record(mk, psi, info, "premise")   # the premise itself (trivially certified from the hypotheses)
+    psi2, want = apply_op(mk, psi, info, op, 0)
+    if want is not None:
+        mk.eq(f"after {op}: state as expected", dense(psi2), want)
+    check_record(mk, psi2, info, f"after {op}")
+
+
 HISTORIES = [
     _h(("canon", 1), L=3),
     _h(("canon", 0), ("canon", 2), L=3),
@@ -242,7 +353,7 @@ HISTORIES = [
     _h(("canon", 1), ("swap", 1, 2, "both"), L=3),
     _h(("canon", 1), ("swap", 1, 2, "left"), L=3),
     _h(("canon", 2), ("swap", 1, 2, "right"), L=3),
-    _h(("canon", 1), ("swap", 1, 2, None), ("expec", (2,)), L=3),
+    _h(("canon", 1), ("swap", 1, 2, None), ("expec", (2,)), L=3, tiers=_T, mand=False),
     _h(("canon", 1), ("swap", 0, 2, None), L=3),
     _h(("canon", 0), ("swapto", 0, 2), L=3),
     _h(("canon", 2), ("swapto", 2, 0), L=3),
@@ -252,7 +363,8 @@ HISTORIES = [
     _h(("canon", 1), ("gate2", (2, 0)), L=3),
     _h(("canon", 1), ("gate_swap+split", (0, 2)), L=3),
     _h(("canon", 0), ("compress_site", 1), L=3),
-    _h(("canon", 0), ("svals", 1), ("svals", 2), L=3),
+    _h(("canon", 0), ("svals", 1), L=3),
+    _h(("canon", 0), ("svals", 1), ("svals", 2), L=3, tiers=_T, mand=False),
     _h(("canon", 2), ("schmidt", 1), L=3),
     _h(("canon", 0), ("expec", (1,)), L=3),
     _h(("canon", 2), ("expec", (0, 1)), L=3),
@@ -262,9 +374,9 @@ HISTORIES = [
     _h(("canon", 0), ("measure", 2, 0, True), L=3),
     _h(("canon", 2), ("measure", 0, 1, True), ("expec", (0,)), L=3),
     _h(("canon", 1), ("gate1", 1), ("expec", (1,)), L=3),
-    _h(("canon", 1), ("nonlocal", (0, 2)), L=3),
-    _h(("canon", 1), ("submpo", (2, 0)), L=3),
-    _h(("gate2", (0, 2)), ("expec", (1,)), L=3, start=None),
+    _h(("canon", 1), ("nonlocal", (0, 2)), L=3, tiers=_T, mand=False),
+    _h(("canon", 1), ("submpo", (2, 0)), L=3, tiers=_T, mand=False),
+    _h(("gate2", (0, 2)), ("expec", (1,)), L=3, start=None, tiers=_T, mand=False),
     _h(("canon", 3), ("gate2", (0, 3)), ("svals", 2), tiers=_T),
     _h(("canon", 0), ("swapto", 0, 3), ("expec", (3,)), tiers=_T),
     _h(("canon", 2), ("swap", 2, 3, None), ("svals", 3), tiers=_T),
@@ -275,7 +387,7 @@ HISTORIES = [
 ]
 
 
-@obligation(PROP, params=HISTORIES, rounds=2, rounds2=3, timeout_s=900, max_rows=150000, wall_s=800)
+@obligation(PROP, params=HISTORIES, rounds=2, timeout_s=240, max_rows=60000, wall_s=200, solver_timeout_ms=60000)
 def history(mk, L, ops, start):
     run_history(mk, L, ops, start)
 
